@@ -12,5 +12,6 @@ import MiniconfVerif.Props.C11
 #print axioms MiniconfVerif.C11.exactCounts_items
 #print axioms MiniconfVerif.C11.exact_size_remaining
 #print axioms MiniconfVerif.C11.source_next_is_model
+#print axioms MiniconfVerif.C11.source_root_is_model
 #print axioms MiniconfVerif.C11.exactCountsM_eq
 #print axioms MiniconfVerif.C11.source_exact_size_is_model
